@@ -43,3 +43,15 @@ Theorem C20_block_loop_once_per_line :
     tok_loop cfg rf cf f2 rec st line el hel = Ok st'.
 Proof. exact tok_loop_fuel. Qed.
 Print Assumptions C20_block_loop_once_per_line.
+
+(* ---- skipToken always advances ------------------------------------------------------------------ *)
+From MD Require Import Lemmas.InlineSafe Lemmas.InlineProgress.
+(* at every recursion depth and for every rule list: a skipToken call that returns has moved the
+   position forward (memo hit, successful rule, or the one-character fallback) - with the memo table
+   (C20_skip_token_memo) each position of a paragraph is scanned forward at most once per level *)
+Theorem C20_skip_token_advances :
+  forall cfg rf cf lt, ic_linkify cfg = false -> order_ok (ic_rules2 cfg) = true ->
+  forall d st st', PI st -> i_pos st < i_posMax st ->
+  skip_token cfg rf cf lt (ifs cfg rf cf lt d) st = Ok st' -> i_pos st < i_pos st'.
+Proof. exact skip_token_advances. Qed.
+Print Assumptions C20_skip_token_advances.
